@@ -160,6 +160,14 @@ def make(cfg, select, known=()):
         E.solver.add(contract(cfg, lo, hi, pz))
         if cfg.get("ground"):
             E.solver.add(AND([lo[i] == hi[i] for i in range(n)]))
+        # structured boxes for the larger arities: some variables pinned to concrete values (so that value-indexed code follows
+        # them without forking), the others symbolic with an optional bound on their width
+        for i, v in (cfg.get("pin") or {}).items():
+            E.solver.add(lo[int(i)] == v, hi[int(i)] == v)
+        if cfg.get("width") is not None:
+            for i in range(n):
+                if str(i) not in (cfg.get("pin") or {}) and i not in (cfg.get("pin") or {}):
+                    E.solver.add(hi[i] - lo[i] <= cfg["width"])
         E.ctx = dict(lo=lo, hi=hi, pz=pz, cfg=cfg)
         dom = SArray([SymInt(v) for pair in zip(lo, hi) for v in pair], (n, 2), dtype="int32")
         par = core.array([SymInt(p) if not isinstance(p, int) else p for p in pz], dtype=DType("int32"))
